@@ -131,6 +131,22 @@ func oneHistory(run *vh.Run, label string, hi, nBlocks int) {
 			run.Count("wallclock_sensitive_txs", v)
 		}
 	}
+	for bi := range leader {
+		if bi%23 == 5 && bi < len(allPlans) && len(allPlans[bi]) > 0 {
+			var kinds []string
+			for ti, p := range allPlans[bi] {
+				k := p.Kind
+				if p.Tx != nil {
+					k = p.String()
+				}
+				if ti < len(leader[bi].Txs) {
+					k = fmt.Sprintf("%s => code %d gas %d events %d", k, leader[bi].Txs[ti].Code, leader[bi].Txs[ti].GasUsed, len(leader[bi].Txs[ti].Events))
+				}
+				kinds = append(kinds, k)
+			}
+			run.Sample(map[string]any{"history": label, "height": leader[bi].Height, "app_hash": leader[bi].AppHash, "txs": kinds, "validator_updates": len(leader[bi].ValUpdates)})
+		}
+	}
 	run.Count("multi_destroy_txs", g.stats["multi-destroy"])
 	run.Count("blocks_recorded", len(leader))
 	ntx := 0
